@@ -14,6 +14,23 @@ Theorem metadata_exact_partial : forall h, dom h = true -> forall k, length k = 
 Proof. exact metadata_exact_partial_l. Qed.
 Print Assumptions metadata_exact_partial.
 
+(* the same with BEGIN / COMMIT / ROLLBACK anywhere in the history (one session; no BEGIN inside a transaction) *)
+Theorem metadata_exact_tx_partial : forall h, tdom h = true -> forall k, length k = 3%nat ->
+  comment_fake (cur (trun h)) k = comment_spec (cur (trun h)) k /\
+  (forall c, len_fake (cur (trun h)) k c = len_spec (cur (trun h)) k c) /\
+  describe_fake (cur (trun h)) k = describe_spec (cur (trun h)) k.
+Proof. exact metadata_exact_tx_partial_l. Qed.
+Print Assumptions metadata_exact_tx_partial.
+
+Theorem tx_rollback_restores : forall ts body, saved ts = None ->
+  cur (tstep (fold_left tstep (map Stmt body) (tstep ts TBegin)) TRollback) = cur ts.
+Proof. exact tx_rollback_restores_l. Qed.
+Print Assumptions tx_rollback_restores.
+
+Theorem trun_embed : forall h, cur (trun (map Stmt h)) = run h /\ tdom (map Stmt h) = dom h.
+Proof. exact trun_embed_l. Qed.
+Print Assumptions trun_embed.
+
 (* "at every point of any DDL history": dom is prefix-closed, so the theorem applies after every statement *)
 Theorem every_prefix : forall h1 h2, dom (h1 ++ h2) = true -> dom h1 = true.
 Proof. exact every_prefix_l. Qed.
@@ -43,3 +60,7 @@ Example meta_holds_somewhere : dom ex_h = true /\
   describe_fake (run ex_h) [lit "DB1"; lit "S2"; lit "T1"] = Some [(lit "B", inl 16777216)].
 Proof. exact meta_nonvacuous_l. Qed.
 Print Assumptions meta_holds_somewhere.
+
+Example meta_tx_holds_somewhere : tdom ex_th = true /\ cur (trun ex_th) = run ex_h.
+Proof. exact meta_tx_nonvacuous_l. Qed.
+Print Assumptions meta_tx_holds_somewhere.
